@@ -1,7 +1,7 @@
 (* Property C16 - only statements, each closed by [exact]. *)
 From Coq Require Import NArith List Bool.
 Import ListNotations.
-Require Import UV.Gen.Consts UV.C16.Model UV.C16.Proofs UV.C16.Frame UV.C16.Dirs UV.C16.Files.
+Require Import UV.Gen.Consts UV.C16.Model UV.C16.Proofs UV.C16.Frame UV.C16.Dirs UV.C16.Files UV.C16.Pick UV.C16.NoMix.
 Local Open Scope N_scope.
 
 (* read_all: for EVERY segmentation of the stream (chunks of any size, EINTRs in between) a request of
@@ -57,14 +57,14 @@ Print Assumptions C16_frame_one_message.
 
 (* whole runs, any number of sockets, any order of wake-ups, any segmentation per socket:
    the concrete server = the abstract run over the messages (including when it dies). *)
-Theorem C16_frame_roundtrip : forall evs tm s (rest : N -> bytes),
+Theorem C16_frame_roundtrip : forall fx evs tm s (rest : N -> bytes),
   forallb (fun e => wf_msg (snd e)) evs = true ->
   (forall k, good (tm k) = true) ->
   (forall k, bytes_of (tm k) = stream_of k evs ++ rest k) ->
-  match run evs s with
-  | Some s' => exists tm', serve (map fst evs) tm s = Some (s', tm') /\
+  match run fx evs s with
+  | Some s' => exists tm', serve fx (map fst evs) tm s = Some (s', tm') /\
                            forall k, good (tm' k) = true /\ bytes_of (tm' k) = rest k
-  | None => serve (map fst evs) tm s = None
+  | None => serve fx (map fst evs) tm s = None
   end.
 Proof. exact serve_roundtrip. Qed.
 Print Assumptions C16_frame_roundtrip.
@@ -79,9 +79,10 @@ Print Assumptions C16_segment_is_a_segmentation.
    recorder writes locally for the same buffers and files (.dat, task, map, sym, dbg, info; the info header
    goes through both byte swaps), restores the client list, and touches no other directory beyond the
    rotation of create_directory. *)
-Theorem C16_same_as_local : forall k d body s,
-  forallb is_body body = true -> create_directory d (fs s) d = Some fresh_dir ->
-  exists s', run (map (pair k) (MDir d :: body ++ [MEnd])) s = Some s' /\
+Theorem C16_same_as_local : forall fx k d body s,
+  forallb is_body body = true -> mkdir_name fx d (clients s) = Some d ->
+  create_directory d (fs s) d = Some fresh_dir ->
+  exists s', run fx (map (pair k) (MDir d :: body ++ [MEnd])) s = Some s' /\
              fs s' d = Some (local_dir body) /\ clients s' = clients s /\
              (forall x, x <> d -> fs s' x = create_directory d (fs s) x).
 Proof. exact same_as_local. Qed.
@@ -89,12 +90,12 @@ Print Assumptions C16_same_as_local.
 
 (* network == local, end to end in the model: ANY schedule of short writes/EINTR on the sender (all calls
    succeeding), ANY segmentation/EINTRs on the receiver: directory d on the server = local directory. *)
-Theorem C16_network_equals_local : forall k d body sched fr t s,
+Theorem C16_network_equals_local : forall fx k d body sched fr t s,
   forallb wf_msg (MDir d :: body ++ [MEnd]) = true -> forallb is_body body = true ->
-  fs s d = None ->
+  fs s d = None -> mkdir_name fx d (clients s) = Some d ->
   send_all sched (MDir d :: body ++ [MEnd]) = (WDone, fr) ->
   good t = true -> bytes_of t = concat fr ->
-  exists s' tm', serve (repeat k (length body + 2)) (tm_set k t (fun _ => [])) s = Some (s', tm') /\
+  exists s' tm', serve fx (repeat k (length body + 2)) (tm_set k t (fun _ => [])) s = Some (s', tm') /\
                  fs s' d = Some (local_dir body) /\ (forall x, x <> d -> fs s' x = fs s x).
 Proof. exact network_equals_local. Qed.
 Print Assumptions C16_network_equals_local.
@@ -103,26 +104,26 @@ Print Assumptions C16_network_equals_local.
    of k's (different, and neither is the other's NAME.old).  For every interleaving (message granularity -
    the server reads one whole message per wake-up) what is in k's directory and in its .old after the whole
    run is what k's own messages alone produce. *)
-Theorem C16_clients_isolated : forall dirs k evs s',
-  Forall (ev_ok dirs k) evs -> run evs server0 = Some s' ->
-  exists s'', run (own k evs) server0 = Some s'' /\
+Theorem C16_clients_isolated_legacy : forall dirs k evs s',
+  Forall (ev_ok dirs k) evs -> run false evs server0 = Some s' ->
+  exists s'', run false (own k evs) server0 = Some s'' /\
               fs s' (dirs k) = fs s'' (dirs k) /\ fs s' (old_of (dirs k)) = fs s'' (old_of (dirs k)).
 Proof. exact clients_isolated. Qed.
-Print Assumptions C16_clients_isolated.
+Print Assumptions C16_clients_isolated_legacy.
 
-Theorem C16_clients_isolated_nonvacuous : Forall (ev_ok dirs2 1) evs2 /\ run evs2 server0 <> None.
+Theorem C16_clients_isolated_legacy_nonvacuous : Forall (ev_ok dirs2 1) evs2 /\ run false evs2 server0 <> None.
 Proof. exact isolation_nonvacuous. Qed.
-Print Assumptions C16_clients_isolated_nonvacuous.
+Print Assumptions C16_clients_isolated_legacy_nonvacuous.
 
 (* without the guard the statement is FALSE of the code as it is: two clients connected at once with the same
    directory name (the default uftrace.data) get their files mixed, the first one's recording is torn. *)
-Theorem C16_same_dirname_refuted :
+Theorem C16_same_dirname_legacy_refuted :
   forallb (fun e => wf_msg (snd e)) evs_same = true /\
   dir_after (own 2 evs_same) ud = Some [(n_default_opts, []); (dat_name 22, [67]); (n_task, [98])] /\
   dir_after evs_same ud = Some [(n_default_opts, []); (dat_name 11, [66]); (dat_name 22, [67]); (n_task, [97; 98])] /\
   dir_after evs_same (old_of ud) = Some [(n_default_opts, []); (dat_name 11, [65])].
 Proof. exact same_dirname_mixes. Qed.
-Print Assumptions C16_same_dirname_refuted.
+Print Assumptions C16_same_dirname_legacy_refuted.
 
 (* all theorems above take ONE writer per connection (messages of a connection are sent one after the other).
    The recorder's writer threads share the socket without a lock: a short writev count in one thread lets the
@@ -147,11 +148,11 @@ Print Assumptions C16_files_independent_of_cross_file_order.
 (* connections that follow the protocol (own SEND_DIR_NAME first, then data/metadata, SEND_END last) with
    pairwise independent directory names never make the server exit, for every interleaving: together with
    C16_clients_isolated every such client gets exactly its own directory. *)
-Theorem C16_sessions_survive : forall dirs evs,
+Theorem C16_sessions_survive_legacy : forall dirs evs,
   (forall i j, In i (map fst evs) -> In j (map fst evs) -> i <> j -> indep (dirs i) (dirs j)) ->
-  sessions dirs [] evs = true -> run evs server0 <> None.
+  sessions dirs [] evs = true -> run false evs server0 <> None.
 Proof. exact sessions_survive. Qed.
-Print Assumptions C16_sessions_survive.
+Print Assumptions C16_sessions_survive_legacy.
 
 Theorem C16_sessions_nonvacuous : sessions dirs2 [] evs2 = true.
 Proof. exact sessions_nonvacuous. Qed.
@@ -162,14 +163,15 @@ Print Assumptions C16_sessions_nonvacuous.
    RESET; the hang-up removes its entry from the client table, so the next connection - accepted on the SAME
    descriptor number k - records into its own directory d2.  For every segmentation: d2 is the local recording
    of the second client, d1 holds exactly what the first one had completely sent, the client table is as before. *)
-Theorem C16_reset_then_descriptor_reuse : forall k d1 body1 junk d2 body2 t1 t2 s,
+Theorem C16_reset_then_descriptor_reuse : forall fx k d1 body1 junk d2 body2 t1 t2 s,
   forallb wf_msg (MDir d1 :: body1) = true -> forallb wf_msg (MDir d2 :: body2 ++ [MEnd]) = true ->
   forallb is_body body1 = true -> forallb is_body body2 = true ->
   fs s d1 = None -> fs s d2 = None -> d1 <> d2 -> d1 <> old_of d2 ->
+  mkdir_name fx d1 (clients s) = Some d1 -> mkdir_name fx d2 (clients s) = Some d2 ->
   good t1 = true -> bytes_of t1 = concat (map enc (MDir d1 :: body1)) ++ junk ->
   good t2 = true -> bytes_of t2 = concat (map enc (MDir d2 :: body2 ++ [MEnd])) ->
   exists s' tm',
-    serve_w (map WIn (repeat k (S (length body1))) ++ [WHup k; WNew k t2] ++ map WIn (repeat k (length body2 + 2)))
+    serve_w fx (map WIn (repeat k (S (length body1))) ++ [WHup k; WNew k t2] ++ map WIn (repeat k (length body2 + 2)))
             (tm_set k t1 (fun _ => [])) s = Some (s', tm') /\
     fs s' d1 = Some (local_dir body1) /\ fs s' d2 = Some (local_dir body2) /\ clients s' = clients s.
 Proof. exact reset_then_reuse. Qed.
@@ -187,10 +189,10 @@ Print Assumptions C16_metadata_sent_exactly_once.
    d has, for EVERY file name, exactly the local directory's file - the file of L if there is one (symbol, debug,
    map, task, info: whatever the options of the run produced), otherwise what the trace data made.  Nothing is
    lost, duplicated or invented. *)
-Theorem C16_same_file_set : forall k d L data s,
+Theorem C16_same_file_set : forall fx k d L data s,
   NoDup (map fst L) -> (forall e, In e L -> sent_name (fst e) = true) -> forallb is_data data = true ->
-  create_directory d (fs s) d = Some fresh_dir ->
-  exists s' R, run (map (pair k) (MDir d :: (data ++ meta_msgs L) ++ [MEnd])) s = Some s' /\ fs s' d = Some R /\
+  mkdir_name fx d (clients s) = Some d -> create_directory d (fs s) d = Some fresh_dir ->
+  exists s' R, run fx (map (pair k) (MDir d :: (data ++ meta_msgs L) ++ [MEnd])) s = Some s' /\ fs s' d = Some R /\
     forall f, flookup f R = match flookup f L with Some c => Some c | None => flookup f (local_dir data) end.
 Proof. exact same_file_set. Qed.
 Print Assumptions C16_same_file_set.
@@ -202,3 +204,82 @@ Theorem C16_same_file_set_nonvacuous :
      Some (str_libc_dbg, [4]); Some (str_p_dbg, [6]); Some (n_info, [1; 2; 3])].
 Proof. exact same_file_set_ex. Qed.
 Print Assumptions C16_same_file_set_nonvacuous.
+
+(* NO MIXING, for the code with the directory-name rule (fix: recv_trace_dir_name gives a client NAME.1, NAME.2, ...
+   when a connected client is writing to NAME or NAME is that client's rotation target): for ANY sequence of
+   events - any names, any interleaving, clients that do or do not follow the protocol - every open session's
+   directory is what create_directory left there plus EXACTLY the session's own data and metadata, in order. *)
+Theorem C16_no_mixing : forall evs s g, grun evs server0 ghost0 = Some (s, g) ->
+  forall k c b body, g k = Some (c, b, body) ->
+    find_client k (clients s) = Some c /\ fs s c = Some (fold_left (fun es m => local_write m es) body b).
+Proof. exact no_mixing. Qed.
+Print Assumptions C16_no_mixing.
+
+(* the events that mixed two clients in the code as found (C16_same_dirname_legacy_refuted) now give two
+   complete directories (regression example, also the non-vacuity of C16_no_mixing). *)
+Theorem C16_same_dirname_separated :
+  match grun evs_same server0 ghost0 with
+  | Some (s, _) =>
+      fs s ud = Some [(n_default_opts, []); (dat_name 11, [65; 66]); (n_task, [97])] /\
+      fs s (cand_name ud 1) = Some [(n_default_opts, []); (dat_name 22, [67]); (n_task, [98])] /\
+      fs s (old_of ud) = None
+  | None => False
+  end.
+Proof. exact same_dirname_separated. Qed.
+Print Assumptions C16_same_dirname_separated.
+
+(* "whatever the sizes involved" holds up to the receiver's `int len`: a message whose length field is 2^31 or
+   more (a single trace buffer or metadata file of 2 GiB) makes `uftrace recv` exit, whatever the segmentation.
+   C16_frame_one_message is stated under exactly this guard (wf_msg: length field < 2^31). *)
+Theorem C16_sizes_from_2GiB_refuted : forall t ty len rest, good t = true -> bytes_of t = msg_hdr ty len ++ rest ->
+  ty < 65536 -> INT_LIMIT <= len -> len < 4294967296 ->
+  match classify ty with KEnd | KOther => True | _ => handle_client_sock t = Died end.
+Proof. exact length_limit. Qed.
+Print Assumptions C16_sizes_from_2GiB_refuted.
+
+(* the directory-name search of recv_trace_dir_name always finds a free name (pigeonhole: every connected client
+   blocks at most two of the candidates NAME, NAME.1, NAME.2, ...; "%d" is injective). *)
+Theorem C16_directory_name_always_found : forall d cl, N.of_nat (length cl) < 1000000 -> mkdir_name true d cl <> None.
+Proof. exact mkdir_name_total. Qed.
+Print Assumptions C16_directory_name_always_found.
+
+(* for the code with the directory-name rule: connections that follow the protocol (SEND_DIR_NAME with ANY name -
+   the same ones included - first, then data/metadata, SEND_END last) never make `uftrace recv` exit, for every
+   interleaving.  With C16_no_mixing: every such client gets a directory of its own with exactly its own data. *)
+Theorem C16_sessions_survive : forall evs, N.of_nat (length evs) < 1000000 -> proto [] evs = true ->
+  run true evs server0 <> None.
+Proof. exact sessions_survive_fixed. Qed.
+Print Assumptions C16_sessions_survive.
+
+Theorem C16_sessions_survive_nonvacuous : proto [] evs_same = true /\ run true evs_same server0 <> None.
+Proof. exact proto_nonvacuous. Qed.
+Print Assumptions C16_sessions_survive_nonvacuous.
+
+(* SENDER SIDE, any chunking: however the recorder cuts a metadata file into SEND_META_DATA messages - as long as
+   every file gets at least one message and the payloads of its messages, in order, add up to the file - the
+   receiver's directory has, for every name, exactly the local file.  (The code sends one message per file:
+   [whole]; fixed-size pieces qualify too; a sender that drops the last piece does not satisfy the hypothesis.) *)
+Theorem C16_same_file_set_any_chunking : forall chunk : bytes -> list bytes,
+  (forall c, chunk c <> []) -> (forall c, concat (chunk c) = c) ->
+  forall fx k d L data s,
+  NoDup (map fst L) -> (forall e, In e L -> sent_name (fst e) = true) -> forallb is_data data = true ->
+  mkdir_name fx d (clients s) = Some d -> create_directory d (fs s) d = Some fresh_dir ->
+  exists s' R, run fx (map (pair k) (MDir d :: (data ++ meta_msgs_c chunk L) ++ [MEnd])) s = Some s' /\ fs s' d = Some R /\
+    forall f, flookup f R = match flookup f L with Some c => Some c | None => flookup f (local_dir data) end.
+Proof. exact same_file_set_c. Qed.
+Print Assumptions C16_same_file_set_any_chunking.
+
+Theorem C16_chunkings_nonvacuous :
+  ((forall c, whole c <> []) /\ (forall c, concat (whole c) = c)) /\
+  (forall fuel n, (forall c, pieces fuel n c <> []) /\ (forall c, concat (pieces fuel n c) = c)) /\
+  (forall L, meta_msgs_c whole L = meta_msgs L).
+Proof. exact (conj whole_ok (conj pieces_ok meta_msgs_whole)). Qed.
+Print Assumptions C16_chunkings_nonvacuous.
+
+(* a sender that cuts into n-byte pieces but computes the last piece as (length mod n) loses the last piece of a
+   file whose size is an exact multiple of n - and only then *)
+Theorem C16_last_piece_mod_refuted :
+  concat (bad_pieces 4 [1; 2; 3; 4; 5; 6; 7]) = [1; 2; 3; 4; 5; 6; 7] /\
+  concat (bad_pieces 4 [1; 2; 3; 4; 5; 6; 7; 8]) = [1; 2; 3; 4] /\ concat (bad_pieces 4 [1; 2; 3; 4]) = [].
+Proof. exact bad_pieces_loses_data. Qed.
+Print Assumptions C16_last_piece_mod_refuted.
